@@ -395,7 +395,9 @@ fn history(sink: &mut Sink, r: &mut Rng, which: Which, scratch: &str, bin: &str,
                     if let Some(lm) = &loaded {
                         for (k, v) in lm {
                             let keep = match mode { "new" => true, "content" => v.0 != 'c', "structure" => v.0 == 'c', _ => false };
-                            if keep && !am.contains_key(k) {
+                            // an evaluated entry that no longer violates may be removed by `--ratchet auto` in the same run (C10)
+                            let tightened = step.ratchet == Some("auto") && evaluated.contains(k) && !processed.iter().any(|x| &x.path == k && x.status == "failed");
+                            if keep && !am.contains_key(k) && !tightened {
                                 pred = Some(format!("--update-baseline={mode} dropped the existing entry {k}"));
                             }
                         }
